@@ -216,13 +216,35 @@ fn signed_coef(rng: &mut Rng) -> f64 {
 }
 
 /// Distinct variable names from the pool (optionally prefixed).
+pub const ODD_VAR_NAMES: &[&str] = &[
+    "", " ", "é", "x\"y", "a b", "back\\slash", "名前", "\u{1F600}", "0", "-1", "null", "a,b", "desk\\",
+    "NaN", "Infinity", "X", "x ", " x", "v_A", "ǅ", "tab\there",
+];
+
 pub fn gen_names(rng: &mut Rng, count: usize, prefix: &str) -> Vec<String> {
-    let mut idx: Vec<usize> = (0..VAR_POOL.len()).collect();
+    // variable names are arbitrary strings: mostly plain, sometimes odd, and when more are
+    // wanted than the pool holds, numbered
+    let odd = rng.chance(0.05);
+    let pool: &[&str] = if odd { ODD_VAR_NAMES } else { VAR_POOL };
+    let mut idx: Vec<usize> = (0..pool.len()).collect();
     rng.shuffle(&mut idx);
-    idx.into_iter()
+    let mut out: Vec<String> = idx
+        .into_iter()
         .take(count)
-        .map(|i| format!("{}{}", prefix, VAR_POOL[i]))
-        .collect()
+        .map(|i| {
+            if odd {
+                pool[i].to_string()
+            } else {
+                format!("{}{}", prefix, pool[i])
+            }
+        })
+        .collect();
+    let mut k = 0;
+    while out.len() < count {
+        out.push(format!("{}n{}", prefix, k));
+        k += 1;
+    }
+    out
 }
 
 /// A dual number spec of the requested kind around value `v` with 1..=maxvars variables.
